@@ -391,7 +391,9 @@ BENIGN_STDERR = ['connection was reset\n', 'a b c\n', 'warning: slow\n',
                  '1 2\n', '1 2 3 4\n', 'x y z w\n' * 20, '\n',
                  'Traceback (most recent call last):\n  File "x", line 1\n'
                  'ValueError: logged only\n', 'caf\u00e9 \u2603 !\n',
-                 '1.5 2 3\n', 'one two three\n']
+                 '1.5 2 3\n', 'one two three\n',
+                 '7 0 0 widgets processed\n',
+                 '2026 09 29 12:00:01 started\n', '3 1 1x\n']
 
 
 def benign_child_stderr(rng, plan, tids, p=0.5):
